@@ -280,7 +280,12 @@ def effReserved (kind : Int) (cpus : List Int) : List Int := if kind == 1 then c
 
 /-- `getSystemQOSExclusiveCPU`: 0 = annotation absent, 1 = cpuset given and `cpusetExclusive` absent
     (exclusive by default), 2 = `cpusetExclusive: true`, 3 = `cpusetExclusive: false` (shared: NOT protected),
-    4 = malformed JSON. -/
+    4 = malformed JSON, 5 = exclusive (by default or explicitly) cpuset string that `cpuset.Parse` rejects
+    ("6, 7", "a", "0-": the function returns an error, the callers log it and carry on with an empty set),
+    6 = exclusive reversed range ("3-1": parses without error to the empty set), 7 = `cpusetExclusive: false`
+    with a rejected string (never parsed).  Only shapes 1 and 2 protect anything, and no shape has any effect
+    on the reserved CPUs (`effReserved`): adjustByCPUSet and calcBECPUSet read the two sources one after the
+    other and neither error handler leaves the function (Ties: `tie_node_sources_independent`). -/
 def effSysExcl (kind : Int) (cpus : List Int) : List Int := if kind == 1 || kind == 2 then cpus else []
 
 /-! ### 3b. calcBECPUSet (recover path) and the kubelet-policy dispatch of applyBESuppressCPUSet -/
